@@ -39,6 +39,11 @@ SPEC = {"amp": {1: True, 2: True, 3: True},
         "theta": {1: False, 2: False, 3: True}}
 
 MUTANTS = [
+    ("island without usable source ends the group", "AegeanTools/source_finder.py",
+     "                    \"No sources found in island {0}\".format(src.island))\n"
+     "                continue",
+     "                    \"No sources found in island {0}\".format(src.island))\n"
+     "                break", "C05-R11"),
     ("psf sanity test rewritten so that nan is excluded",
      "AegeanTools/cluster.py",
      "            if (src.psf_a <= 0) or (src.psf_b <= 0):",
@@ -264,6 +269,47 @@ def run(ctx):
              "(interpreted over nan / positive samples; shared with C19-R7)")
     from .c19 import resize_nan_rule
     resize_nan_rule(ctx, prog, "C05-R10")
+    ctx.rule("C05-R11", "sources are handled independently of each other: "
+             "the loops over the islands of a group, the sources of an "
+             "island and the batches of groups are never left early (no "
+             "break, no return inside them) -- an unusable source or island "
+             "is skipped with continue, it does not end the work on the "
+             "others")
+    n11 = 0
+    for short in ("source_finder.SourceFinder._refit_islands",
+                  "source_finder.SourceFinder.priorized_fit_islands"):
+        fi_ = prog.func(short)
+        for lp in walk_no_nested(fi_.node):
+            if not isinstance(lp, (ast.For, ast.While)):
+                continue
+            n11 += 1
+            bad = []
+
+            def scan(stmts, inner):
+                for st in stmts:
+                    if isinstance(st, ast.Break) and not inner:
+                        bad.append(st)
+                    if isinstance(st, ast.Return):
+                        bad.append(st)
+                    nested = isinstance(st, (ast.For, ast.While))
+                    for fld in ("body", "orelse", "finalbody"):
+                        sub = getattr(st, fld, None)
+                        if isinstance(sub, list):
+                            scan([x for x in sub if isinstance(x, ast.stmt)],
+                                 inner or nested)
+                    for h in getattr(st, "handlers", []) or []:
+                        scan(h.body, inner or nested)
+            scan(lp.body, False)
+            ctx.check("C05-R11", fi_, "loop over %s runs to completion" %
+                      norm(lp.iter if isinstance(lp, ast.For) else lp.test,
+                           50), not bad,
+                      "`%s` leaves the loop over %s early: the islands / "
+                      "sources after the one that triggered it are never "
+                      "fitted and silently missing from the result" %
+                      (norm(bad[0]) if bad else "", norm(
+                          lp.iter if isinstance(lp, ast.For) else lp.test,
+                          40)), node=bad[0] if bad else lp)
+    ctx.floor("C05-R11", n11, 6, "loops of the priorized fitting functions")
     # blends are fitted jointly: default grouping length (shared with C19)
     from .c19 import default_linking_length
     ctx.rule("C05-R8", "blended sources are fitted jointly: the default "
